@@ -714,7 +714,7 @@ func (m *clm) finish() {
 			}
 			continue
 		}
-		req := m.cur.PosRequired != "" || a.Required != ""
+		req := m.cur.PosRequired != "" || m.cur.ArgsRequiredAPI || a.Required != ""
 		if queued && req {
 			unmet = append(unmet, a.ShownName())
 		} else {
